@@ -80,83 +80,148 @@ theorem shift_zero (i : Inst) : i.shift 0 = i := by
   | nil => rfl
   | cons p ps ih => simp only [List.map_cons, ih]
 
-/-- every call site hands the increment on (re-checked against the source on every run) -/
-def allOn : Threading := ⟨true, true, true, true, true, true, true, true, true, true, true, true, true, true⟩
-theorem threading_all : threading = allOn := rfl
+/-- every call site between the instance reader and `ReadEntityRef` hands the increment on; `b`: the reader of the text elements
+    of an aggregate of aggregates applies it to the references in the text (`aggrNested`) -/
+def allOnN (b : Bool) : Threading := ⟨true, true, true, true, true, true, true, true, true, true, true, true, true, true, b⟩
+/-- every site on -/
+def allOn : Threading := allOnN true
+/-- the 14 call sites of the code hand the increment on (re-checked against the source on every run); the 15th is what it is -/
+theorem threading_all : threading = allOnN threading.aggrNested := rfl
 
-theorem on_instAttr : allOn.instAttr = true := rfl
-theorem on_attrRef : allOn.attrRef = true := rfl
-theorem on_attrAggr : allOn.attrAggr = true := rfl
-theorem on_attrSelect : allOn.attrSelect = true := rfl
-theorem on_redef : allOn.redef = true := rfl
-theorem on_aggrEntityElem : allOn.aggrEntityElem = true := rfl
-theorem on_aggrSelectElem : allOn.aggrSelectElem = true := rfl
-theorem on_selectContent : allOn.selectContent = true := rfl
-theorem on_selectRef : allOn.selectRef = true := rfl
-theorem on_complexPart : allOn.complexPart = true := rfl
-theorem on_refAdd : allOn.refAdd = true := rfl
-theorem on_genSelectRef : allOn.genSelectRef = true := rfl
-theorem on_genSelectNested : allOn.genSelectNested = true := rfl
-theorem on_genSelectAggr : allOn.genSelectAggr = true := rfl
+theorem on_instAttr (b : Bool) : (allOnN b).instAttr = true := rfl
+theorem on_attrRef (b : Bool) : (allOnN b).attrRef = true := rfl
+theorem on_attrAggr (b : Bool) : (allOnN b).attrAggr = true := rfl
+theorem on_attrSelect (b : Bool) : (allOnN b).attrSelect = true := rfl
+theorem on_redef (b : Bool) : (allOnN b).redef = true := rfl
+theorem on_aggrEntityElem (b : Bool) : (allOnN b).aggrEntityElem = true := rfl
+theorem on_aggrSelectElem (b : Bool) : (allOnN b).aggrSelectElem = true := rfl
+theorem on_selectContent (b : Bool) : (allOnN b).selectContent = true := rfl
+theorem on_selectRef (b : Bool) : (allOnN b).selectRef = true := rfl
+theorem on_complexPart (b : Bool) : (allOnN b).complexPart = true := rfl
+theorem on_refAdd (b : Bool) : (allOnN b).refAdd = true := rfl
+theorem on_genSelectRef (b : Bool) : (allOnN b).genSelectRef = true := rfl
+theorem on_genSelectNested (b : Bool) : (allOnN b).genSelectNested = true := rfl
+theorem on_genSelectAggr (b : Bool) : (allOnN b).genSelectAggr = true := rfl
+theorem on_aggrNested (b : Bool) : (allOnN b).aggrNested = b := rfl
 
 theorem thr_true (k : Int) : thr true k = k := rfl
+theorem thr_zero (b : Bool) : thr b 0 = 0 := by cases b <;> rfl
 
-/-- with every site on: all references of `v`, moved by `k`, are ids in `ns` ⇒ reading resolves every one of them to the
-    moved id, wherever the value stands -/
-theorem resolveValT_closed (ns : List Node) (k : Int) (v : Val) (h : ∀ r ∈ v.refs, r + k ∈ ids ns) (c : Ctx) :
-    resolveValT allOn ns c k v = (v.mapRefs (· + k), true) := by
+theorem mapRefs_no_refs (f : Int → Int) (v : Val) (h : v.refs = []) : v.mapRefs f = v := by
+  induction v with
+  | null => rfl | derived => rfl | tok _ => rfl
+  | ref i => simp [Val.refs] at h
+  | typed n v ih => simp only [Val.mapRefs, ih (by simpa [Val.refs] using h)]
+  | aggr e ih => simp only [Val.mapRefs, ih (by simpa [Val.refs] using h)]
+  | nil => rfl
+  | cons a b iha ihb =>
+    have h' : a.refs = [] ∧ b.refs = [] := by simpa [Val.refs] using h
+    simp only [Val.mapRefs, iha h'.1, ihb h'.2]
+  | via p v ih => simp only [Val.mapRefs, ih (by simpa [Val.refs] using h)]
+
+/-- with the 14 call sites on: all references of `v`, moved by `k`, are ids in `ns` ⇒ reading resolves every one of them to
+    the moved id, wherever the value stands — PROVIDED the text elements of aggregates of aggregates get the increment too
+    (`b`), or there is no increment (`k = 0`), or no reference stands inside such an element (`flatC`) -/
+theorem resolveValT_closed (b : Bool) (ns : List Node) (k : Int) (v : Val) (h : ∀ r ∈ v.refs, r + k ∈ ids ns) (c : Ctx)
+    (hf : b = true ∨ k = 0 ∨ flatC c v = true) :
+    resolveValT (allOnN b) ns c k v = (v.mapRefs (· + k), true) := by
   induction v generalizing c with
   | null => rfl | derived => rfl | tok _ => rfl
   | ref r =>
     have : (find ns (r + k)).isSome = true := find_isSome.mpr (h r (by simp [Val.refs]))
     cases c <;> simp [resolveValT, on_instAttr, on_attrRef, on_attrAggr, on_attrSelect, on_redef, on_aggrEntityElem, on_aggrSelectElem, on_selectContent, on_selectRef, on_complexPart, on_refAdd, on_genSelectRef, on_genSelectNested, on_genSelectAggr, thr_true, this, Val.mapRefs]
   | typed n v ih =>
-    simp only [resolveValT, Val.mapRefs, on_instAttr, on_attrRef, on_attrAggr, on_attrSelect, on_redef, on_aggrEntityElem, on_aggrSelectElem, on_selectContent, on_selectRef, on_complexPart, on_refAdd, on_genSelectRef, on_genSelectNested, on_genSelectAggr, thr_true]
-    rw [ih (by simpa [Val.refs] using h)]
+    simp only [resolveValT, Val.mapRefs, on_selectContent, thr_true]
+    rw [ih (by simpa [Val.refs] using h) .inTyped (by simpa [flatC] using hf)]
   | aggr e ih =>
-    have := ih (by simpa [Val.refs] using h) .inAggr
-    cases c <;> (simp only [resolveValT, Val.mapRefs, on_instAttr, on_attrRef, on_attrAggr, on_attrSelect, on_redef, on_aggrEntityElem, on_aggrSelectElem, on_selectContent, on_selectRef, on_complexPart, on_refAdd, on_genSelectRef, on_genSelectNested, on_genSelectAggr, thr_true]; rw [this])
+    cases c with
+    | inAggr =>
+      simp only [resolveValT, Val.mapRefs, on_aggrNested]
+      rcases hf with hb | hk | hfl
+      · subst hb; rfl
+      · subst hk; rw [thr_zero]
+      · have he : e.refs = [] := by simpa [flatC] using hfl
+        rw [mapRefs_no_refs _ e he, mapRefs_no_refs _ e he]
+    | top =>
+      have := ih (by simpa [Val.refs] using h) .inAggr (by simpa [flatC] using hf)
+      simp only [resolveValT, Val.mapRefs, on_attrAggr, thr_true]; rw [this]
+    | inTyped =>
+      have := ih (by simpa [Val.refs] using h) .inAggr (by simpa [flatC] using hf)
+      simp only [resolveValT, Val.mapRefs, on_genSelectAggr, thr_true]; rw [this]
+    | inSelect =>
+      have := ih (by simpa [Val.refs] using h) .inAggr (by simpa [flatC] using hf)
+      simp only [resolveValT, Val.mapRefs]; rw [this]
   | nil => rfl
-  | cons a b iha ihb =>
+  | cons a b' iha ihb =>
+    have hfa : b = true ∨ k = 0 ∨ flatC c a = true := by
+      rcases hf with h1 | h1 | h1
+      · exact Or.inl h1
+      · exact Or.inr (Or.inl h1)
+      · exact Or.inr (Or.inr (by simp [flatC] at h1; exact h1.1))
+    have hfb : b = true ∨ k = 0 ∨ flatC c b' = true := by
+      rcases hf with h1 | h1 | h1
+      · exact Or.inl h1
+      · exact Or.inr (Or.inl h1)
+      · exact Or.inr (Or.inr (by simp [flatC] at h1; exact h1.2))
     simp only [resolveValT, Val.mapRefs]
-    rw [iha (fun r hr => h r (by simp [Val.refs, hr])), ihb (fun r hr => h r (by simp [Val.refs, hr]))]
+    rw [iha (fun r hr => h r (by simp [Val.refs, hr])) c hfa, ihb (fun r hr => h r (by simp [Val.refs, hr])) c hfb]
     rfl
   | via p v ih =>
     cases p with
     | select =>
-      have := ih (by simpa [Val.refs] using h) .inSelect
-      cases c <;> (simp only [resolveValT, Val.mapRefs, on_instAttr, on_attrRef, on_attrAggr, on_attrSelect, on_redef, on_aggrEntityElem, on_aggrSelectElem, on_selectContent, on_selectRef, on_complexPart, on_refAdd, on_genSelectRef, on_genSelectNested, on_genSelectAggr, thr_true]; rw [this])
+      have := ih (by simpa [Val.refs] using h) .inSelect (by simpa [flatC] using hf)
+      cases c <;> (simp only [resolveValT, Val.mapRefs, on_attrSelect, on_aggrSelectElem, thr_true]; rw [this])
     | nested =>
       simp only [resolveValT, Val.mapRefs, on_selectContent, on_genSelectNested, thr_true]
-      rw [ih (by simpa [Val.refs] using h)]
+      rw [ih (by simpa [Val.refs] using h) .inTyped (by simpa [flatC] using hf)]
     | redecl =>
-      simp only [resolveValT, Val.mapRefs, on_instAttr, on_attrRef, on_attrAggr, on_attrSelect, on_redef, on_aggrEntityElem, on_aggrSelectElem, on_selectContent, on_selectRef, on_complexPart, on_refAdd, on_genSelectRef, on_genSelectNested, on_genSelectAggr, thr_true]
-      rw [ih (by simpa [Val.refs] using h)]
+      simp only [resolveValT, Val.mapRefs, on_redef, thr_true]
+      rw [ih (by simpa [Val.refs] using h) c (by simpa [flatC] using hf)]
 
-theorem resolveVal_closed (ns : List Node) (k : Int) (v : Val) (h : ∀ r ∈ v.refs, r + k ∈ ids ns) (c : Ctx) :
-    resolveVal ns c k v = (v.mapRefs (· + k), true) := by
-  unfold resolveVal; rw [threading_all]; exact resolveValT_closed ns k v h c
-
-theorem resolveValsT_closed (ns : List Node) (k : Int) (vs : List Val) (h : ∀ r ∈ vs.flatMap Val.refs, r + k ∈ ids ns) :
-    resolveValsT allOn ns k vs = (vs.map (Val.mapRefs (· + k)), true) := by
+theorem resolveValsT_closed (b : Bool) (ns : List Node) (k : Int) (vs : List Val) (h : ∀ r ∈ vs.flatMap Val.refs, r + k ∈ ids ns)
+    (hf : b = true ∨ k = 0 ∨ ∀ v ∈ vs, flatC .top v = true) :
+    resolveValsT (allOnN b) ns k vs = (vs.map (Val.mapRefs (· + k)), true) := by
   induction vs with
   | nil => rfl
   | cons v vs ih =>
     simp only [resolveValsT, List.map_cons]
-    have h1 : thr allOn.instAttr k = k := rfl
-    rw [h1, resolveValT_closed ns k v (fun r hr => h r (by simp [hr])), ih (fun r hr => h r (by simp [hr]))]
+    have h1 : thr (allOnN b).instAttr k = k := rfl
+    have hv : b = true ∨ k = 0 ∨ flatC .top v = true := by
+      rcases hf with h1 | h1 | h1
+      · exact Or.inl h1
+      · exact Or.inr (Or.inl h1)
+      · exact Or.inr (Or.inr (h1 v (by simp)))
+    have hvs : b = true ∨ k = 0 ∨ ∀ x ∈ vs, flatC .top x = true := by
+      rcases hf with h1 | h1 | h1
+      · exact Or.inl h1
+      · exact Or.inr (Or.inl h1)
+      · exact Or.inr (Or.inr (fun x hx => h1 x (by simp [hx])))
+    rw [h1, resolveValT_closed b ns k v (fun r hr => h r (by simp [hr])) .top hv, ih (fun r hr => h r (by simp [hr])) hvs]
     rfl
 
+/-- `NestedOk`-style side condition of the reader of the code at hand, for the parts of one instance -/
 theorem resolveParts_closed (ns : List Node) (cx : Bool) (k : Int) (ps : List Part)
-    (h : ∀ r ∈ ps.flatMap (fun p => p.vals.flatMap Val.refs), r + k ∈ ids ns) :
+    (h : ∀ r ∈ ps.flatMap (fun p => p.vals.flatMap Val.refs), r + k ∈ ids ns)
+    (hf : threading.aggrNested = true ∨ k = 0 ∨ ∀ p ∈ ps, ∀ v ∈ p.vals, flatC .top v = true) :
     resolveParts ns cx k ps = (ps.map (fun p => { p with vals := p.vals.map (Val.mapRefs (· + k)) }), true) := by
   unfold resolveParts; rw [threading_all]
+  generalize threading.aggrNested = b at hf
   induction ps with
   | nil => rfl
   | cons p ps ih =>
     simp only [resolvePartsT, List.map_cons]
-    have h1 : (if cx = true then thr allOn.complexPart k else k) = k := by cases cx <;> rfl
-    rw [h1, resolveValsT_closed ns k p.vals (fun r hr => h r (by simp [hr])), ih (fun r hr => h r (by simp [hr]))]
+    have h1 : (if cx = true then thr (allOnN b).complexPart k else k) = k := by cases cx <;> rfl
+    have hp : b = true ∨ k = 0 ∨ ∀ v ∈ p.vals, flatC .top v = true := by
+      rcases hf with h1 | h1 | h1
+      · exact Or.inl h1
+      · exact Or.inr (Or.inl h1)
+      · exact Or.inr (Or.inr (h1 p (by simp)))
+    have hps : b = true ∨ k = 0 ∨ ∀ q ∈ ps, ∀ v ∈ q.vals, flatC .top v = true := by
+      rcases hf with h1 | h1 | h1
+      · exact Or.inl h1
+      · exact Or.inr (Or.inl h1)
+      · exact Or.inr (Or.inr (fun q hq => h1 q (by simp [hq])))
+    rw [h1, resolveValsT_closed b ns k p.vals (fun r hr => h r (by simp [hr])) hp, ih (fun r hr => h r (by simp [hr])) hps]
     rfl
 
 
@@ -323,20 +388,21 @@ theorem pass2_spec (ft : FileType) (fill : Inst → Inst) (asev : Inst → Sev) 
     ∀ (es : List Entry) (A : List Node),
     (ids A ++ fids k (kept ft es)).Nodup →
     (∀ e ∈ kept ft es, ∀ r ∈ e.inst.refs, r + k ∈ ids A ++ fids k (kept ft es)) →
+    (threading.aggrNested = true ∨ k = 0 ∨ ∀ e ∈ kept ft es, FlatInst e.inst) →
     (pass2 ft fill asev k ⟨A ++ (kept ft es).map (stubNode ft k), m⟩ es).nodes = A ++ (kept ft es).map (filledNode ft fill asev k) := by
   intro es
   induction es with
-  | nil => intro A _ _; simp [pass2, kept]
+  | nil => intro A _ _ _; simp [pass2, kept]
   | cons e es ih =>
-    intro A hnd hrefs
+    intro A hnd hrefs hflat
     simp only [pass2, List.foldl_cons]
     cases hsk : skipped ft e with
     | true =>
-      rw [kept_cons_skipped hsk] at hnd hrefs ⊢
+      rw [kept_cons_skipped hsk] at hnd hrefs hflat ⊢
       have : ∀ s, pass2Step ft fill asev k s e = s := by intro s; simp [pass2Step, hsk]
-      rw [this]; exact ih A hnd hrefs
+      rw [this]; exact ih A hnd hrefs hflat
     | false =>
-      rw [kept_cons_kept hsk] at hnd hrefs ⊢
+      rw [kept_cons_kept hsk] at hnd hrefs hflat ⊢
       simp only [List.map_cons]
       have hidn : (stubNode ft k e).inst.id = incrementFileId k e.inst.id := rfl
       have hnd' := hnd
@@ -355,9 +421,13 @@ theorem pass2_spec (ft : FileType) (fill : Inst → Inst) (asev : Inst → Sev) 
       have hres : resolveParts (A ++ stubNode ft k e :: (kept ft es).map (stubNode ft k)) (decide (1 < e.inst.parts.length)) k e.inst.parts =
           (e.inst.parts.map (fun p => { p with vals := p.vals.map (Val.mapRefs (· + k)) }), true) := by
         apply resolveParts_closed
-        intro r hr
-        rw [hids]
-        exact hrefs e (by simp) r (by simpa [Inst.refs] using hr)
+        · intro r hr
+          rw [hids]
+          exact hrefs e (by simp) r (by simpa [Inst.refs] using hr)
+        · rcases hflat with h1 | h1 | h1
+          · exact Or.inl h1
+          · exact Or.inr (Or.inl h1)
+          · exact Or.inr (Or.inr (h1 e (by simp)))
       have hfind : find (A ++ stubNode ft k e :: (kept ft es).map (stubNode ft k)) (incrementFileId k e.inst.id)
           = some (stubNode ft k e) := by
         have := find_mid (A := A) (B := (kept ft es).map (stubNode ft k)) (n := stubNode ft k e) (by rw [hidn]; exact hA_fresh)
@@ -386,6 +456,11 @@ theorem pass2_spec (ft : FileType) (fill : Inst → Inst) (asev : Inst → Sev) 
           rw [hidf, List.append_assoc]
           have := hrefs e' (by simp [he']) r hr
           simpa [fids] using this)
+        (by
+          rcases hflat with h1 | h1 | h1
+          · exact Or.inl h1
+          · exact Or.inr (Or.inl h1)
+          · exact Or.inr (Or.inr (fun e' he' => h1 e' (by simp [he']))))
       simp only [pass2] at this
       rw [this]; simp [List.append_assoc]
 
